@@ -289,6 +289,28 @@ def h_expm(ctx, n, D, P):
             ctx.eq(lhs[d], U[d] + Vv[d], '(-U+V) expm(A) == U+V order %d dir %d' % (d, p))
 
 
+def h_expm_pade(ctx, q, n, D, P):
+    """the fixed-order [q/q] Pade approximant r_q(A) = (V - U)^-1 (U + V) with the closed-form
+    coefficients b_k = (2q-k)! / (k! (q-k)!) (any common factor cancels)"""
+    import math
+    algopy = symx.load_algopy()
+    X = V(ctx, 'A', (D, P, n, n))
+    A = mk_utpm(ctx, algopy, X)
+    Bm = plain(algopy.expm_pade(A, q).data)
+    b = [math.factorial(2 * q - k) // (math.factorial(k) * math.factorial(q - k)) for k in range(q + 1)]
+    I = eye_series(n, D, ctx)
+    for p in range(P):
+        Ac = coefs(X, p)
+        pw = [I]
+        for k in range(q):
+            pw.append(ps_matmul(pw[-1], Ac, D))
+        U = [sum(b[k] * pw[k][d] for k in range(1, q + 1, 2)) for d in range(D)]
+        Vv = [sum(b[k] * pw[k][d] for k in range(0, q + 1, 2)) for d in range(D)]
+        lhs = ps_matmul([Vv[d] - U[d] for d in range(D)], coefs(Bm, p), D)
+        for d in range(D):
+            ctx.eq(lhs[d], U[d] + Vv[d], '(-U+V) expm_pade(A, %d) == U+V order %d dir %d' % (q, d, p))
+
+
 def units(tier, seed):
     out = []
     opts = {'property': PROP, 'path_budget': 300, 'validate_paths': 4}
@@ -346,11 +368,29 @@ def units(tier, seed):
         add('%s/2x2/D5,P1' % fn, 'h_det', n=2, D=5, P=1, fn=fn)
         add('%s/3x3/D%d,P1' % (fn, 3 if tier != 'quick' else 2), 'h_det', n=3, D=3 if tier != 'quick' else 2, P=1, fn=fn)
     add('det/1x1/D3,P2', 'h_det', n=1, D=3, P=2)
+    # Fortran-ordered coefficient matrices (what a transposed view hands to the LAPACK wrappers, which may
+    # factorise such an array in place): same results, operands unchanged
+    F = {'layout': 'F'}
+    for fn in ('det', 'logdet'):
+        add('%s/2x2, Fortran-ordered/D3,P2' % fn, 'h_det', o=F, n=2, D=3, P=2, fn=fn)
+        add('%s/3x3, Fortran-ordered/D2,P1' % fn, 'h_det', o=F, n=3, D=2, P=1, fn=fn)
+    add('inv/2x2, Fortran-ordered/D3,P2', 'h_inv', o=F, n=2, D=3, P=2)
+    add('inv/3x3, Fortran-ordered/D2,P1', 'h_inv', o=F, n=3, D=2, P=1)
+    for kinds in ('UU', 'NU', 'UN'):
+        add('solve/2x2,k2/%s, Fortran-ordered/D3,P2' % kinds, 'h_solve', o=F, n=2, k=2, kinds=kinds, D=3, P=2)
+        add('dot/(2, 3).(3, 2)/%s, Fortran-ordered/D3,P2' % kinds, 'h_dot', o=F, fn='dot', lshape=(2, 3), rshape=(3, 2), kinds=kinds, D=3, P=2)
+    add('solve/3x3,k1/UU, Fortran-ordered/D2,P1', 'h_solve', o=F, n=3, k=1, kinds='UU', D=2, P=1)
+    add('trace/3x3, Fortran-ordered/D3,P2', 'h_trace', o=F, n=3, D=3, P=2)
     add('det/complex 2x2/D3,P2 (float-decided)', 'h_complex_lu', n=2, D=3, P=2)
     add('det/complex 3x3/D3,P1 (float-decided)', 'h_complex_lu', n=3, D=3, P=1)
     for k in (520, -520):
         add('logdet/2x2 entries of magnitude 2**%d/D3,P1' % k, 'h_det', o={'exact_eval': True}, n=2, D=3, P=1, fn='logdet', scale=k)
     add('expm/2x2/D2,P1', 'h_expm', o={'unit_timeout': 600}, n=2, D=2, P=1)
+    # every order of the fixed-order Pade family (expm_pade(A, q)); 1x1 matrices for the long tables
+    for q in (3, 5, 7, 9, 13):
+        add('expm_pade(q=%d)/1x1/D3,P2' % q, 'h_expm_pade', q=q, n=1, D=3, P=2)
+    for q in (3, 5):
+        add('expm_pade(q=%d)/2x2/D2,P1' % q, 'h_expm_pade', o={'unit_timeout': 600}, q=q, n=2, D=2, P=1)
     if tier != 'quick':
         add('expm/2x2/D2,P2', 'h_expm', o={'unit_timeout': 900}, n=2, D=2, P=2)
         add('inv/2x2/D6,P1', 'h_inv', n=2, D=6, P=1)
